@@ -9,6 +9,12 @@ import (
 // Registry maps property ids to checks.
 var Registry = map[string]func(*Ctx){
 	"C01": C01,
+	"C02": C02,
+	"C05": C05,
+	"C11": C11,
+	"C12": C12,
+	"C14": C14,
+	"C17": C17,
 }
 
 // Replay re-runs the case stored in a violation file against pigeon rebuilt from the current tree.
